@@ -10,7 +10,7 @@ Model: `PMF`.  Every activation of a step function or continuation is logged in 
 Transparency itself ("the executed steps, the context and the final result are those of the uninterrupted run") is proved
 below as a simulation (`C05_transparent_partial` and its corollaries; helper lemmas in `PM/Proof12.lean`) for histories of
 ticks, pause and play requests placed anywhere, and wake-up requests (`resume`, completion of an awaited future, its
-done-callback) placed at moments at which no pause is requested, in effect or just retracted.  The unrestricted statement
+done-callback) placed at moments at which no pause is in effect (one may be requested).  The unrestricted statement
 is `C05_transparent_full`; the interleavings it adds are decided by the Python monitor `c05-transparent` only.
 -/
 namespace PMF
@@ -102,14 +102,16 @@ configuration `c` of the run with pauses to a configuration `d` of the reference
 
 /-- **transparency (partial): the run with pauses is simulated by the run of its reference history.**
 For every program, every number of awaited futures and every history `evs` consisting of ticks, `pause` and `play` requests
-at arbitrary positions, and `resume` / `complete` / awaitable-done events at positions where no interrupt action is
-installed and the stepping task is not suspended on a pause future (`admissible`; no kill, fail, cancel or call_soon), the
+at arbitrary positions, and `resume` / `complete` / awaitable-done events at quiet positions (`quiet`: the stepping task is
+not suspended on a pause future, and the current wait was not interrupted by a pause request that the stepping task has
+still to notice; a pause may be requested but not yet in effect) — `admissible`; no kill, fail, cancel or call_soon —, the
 configuration reached by `evs` and the configuration reached by the reference history `unpaused … evs` (no pause, no play,
 fewer ticks) are related by `Sim` — provided no tick of the reference run exhausts the fuel of the model's step loop
 (`fuelOk`: the real code would not terminate there).
 
-Missing with respect to `C05_transparent_full`: wake-up requests that arrive while a pause is requested, in effect or
-retracted but not yet noticed by the stepping task; histories with kill / fail / cancel / call_soon. -/
+Missing with respect to `C05_transparent_full`: wake-up requests that arrive while the process is held by a pause (or
+released by play but the stepping task not yet woken), or between a pause request that interrupted a pending wait and the
+next tick; histories with kill / fail / cancel / call_soon. -/
 theorem C05_transparent_partial (P : Prog) (nf : Nat) (evs : List Ev)
     (hadm : admissible P (init nf) evs = true)
     (hfuel : fuelOk P (init nf) (unpaused P (init nf) evs) = true) :
@@ -138,10 +140,11 @@ theorem C05_same_result_partial (P : Prog) (nf : Nat) (evs : List Ev)
   obtain ⟨g1, g2, g3, g4, g5, g6, g7, g8, g9, g10, g11, g12, g13, g14, g15⟩ := sh_fields h2
   exact ⟨h1, g12, g9, g2, g11, g5, g14, C05_nothing_runs_while_paused P nf evs⟩
 
-/-- **at every quiet moment both runs are at the same point (partial)**: under the same hypotheses, whenever no interrupt
-action is installed in the run with pauses and its stepping task is not suspended on a pause future (in particular: before
-the first pause, and after a play once the stepping task has been woken), the reference run is in the same state (up to the
-index of the wait future), with the same trace, context, stepping flag, scheduled callbacks and awaited futures. -/
+/-- **at every quiet moment both runs are at the same point (partial)**: under the same hypotheses, whenever the stepping
+task of the run with pauses is not suspended on a pause future and its current wait is not interrupted (in particular:
+before the first pause takes effect, and after a play once the stepping task has been woken), the reference run is in the
+same state (up to the index of the wait future), with the same trace, context, stepping flag, scheduled callbacks and
+awaited futures. -/
 theorem C05_same_point_when_quiet_partial (P : Prog) (nf : Nat) (evs : List Ev)
     (hadm : admissible P (init nf) evs = true)
     (hfuel : fuelOk P (init nf) (unpaused P (init nf) evs) = true)
@@ -243,6 +246,17 @@ example : admissible wc (init 1) wcHist = true := by decide +kernel
 example : fuelOk wc (init 1) (unpaused wc (init 1) wcHist) = true := by decide +kernel
 example : (run wc (init 1) wcHist).st = .finished (some 3) true := by decide +kernel
 example : (run wc (init 1) wcHist).ctx = [(5, 3)] := by decide +kernel
+-- the awaited future completes while a pause is requested but not yet in effect (inside the asynchronous first step)
+private def wc2 : Prog := fun fn _ _ ctx =>
+  match fn with
+  | 0 => ⟨1, .ret (.waitOn 1 [(0, 5)])⟩
+  | _ => ⟨0, .ret (.stop ((ctx.find? (·.1 = 5)).map (·.2)) true)⟩
+private def wc2Hist : List Ev :=
+  [.tick, .pause, .complete 0 (.result 3), .tick, .play, .tick, .tickCb (.adone 0), .tick]
+example : admissible wc2 (init 1) wc2Hist = true := by decide +kernel
+example : unpaused wc2 (init 1) wc2Hist = [.tick, .complete 0 (.result 3), .tick, .tickCb (.adone 0), .tick] := by decide +kernel
+example : fuelOk wc2 (init 1) (unpaused wc2 (init 1) wc2Hist) = true := by decide +kernel
+example : (run wc2 (init 1) wc2Hist).st = .finished (some 3) true := by decide +kernel
 end
 end PMF
 
